@@ -107,6 +107,18 @@ Render(n) ==
                        /\ hist' = Append(hist, [op |-> "render", n |-> n, obs |-> Observation(content[w][n], c2, rd)])
                        /\ UNCHANGED <<content, mtime, cacheOn, autoReload, clock>>
 
+\* the cache is off and the name's current source was registered: what such a call serves is not determined (the registration has
+\* no loader to be re-read from) -- but it reads the loaders like every call without a cache, and the registration is still there when
+\* the cache is switched on again
+RenderOffReg(n) ==
+    /\ ~cacheOn /\ cache[n].ver # 0 /\ cache[n].from = 0 /\ ~Broken
+    /\ LET w == FirstWith(n)
+           rd == ReadsFor(n)
+       IN /\ loads' = rd
+          /\ remembered' = IF w \in {2, 3} THEN [remembered EXCEPT ![n] = w] ELSE IF w = 0 THEN [remembered EXCEPT ![n] = 0] ELSE remembered
+          /\ hist' = Append(hist, [op |-> "render", n |-> n, anyserved |-> TRUE, obs |-> Observation(IF w = 0 THEN 0 ELSE content[w][n], cache, rd)])
+          /\ UNCHANGED <<content, mtime, cache, cacheOn, autoReload, clock>>
+
 Register(n, v) ==
     /\ n \in RegNames /\ cacheOn
     /\ cache' = [cache EXCEPT ![n] = [ver |-> v + 10, from |-> 0, lastMod |-> clock]]     \* registered versions are 11, 12
@@ -198,6 +210,7 @@ SetDevMode(b) ==
 Next ==
     /\ Len(hist) < MaxLen
     /\ \/ \E n \in NamesUsed : Render(n)
+       \/ \E n \in NamesUsed : RenderOffReg(n)
        \/ \E n \in NamesUsed : \E v \in Vers : RenderPut(n, v)
        \/ \E n \in RegNames \cap NamesUsed : \E v \in Vers : Register(n, v)
        \/ \E n \in RegNames \cap NamesUsed : RegSame(n)
@@ -210,7 +223,7 @@ Spec == Init /\ [][Next]_vars
 
 \* ---- the property's sentences over steps ------------------------------------------------------
 Last == hist'[Len(hist')]
-IsRender == hist' # hist /\ Last.op = "render"
+IsRender == hist' # hist /\ Last.op = "render" /\ "anyserved" \notin DOMAIN Last
 TotalLoads(l, n) == l[1][n] + l[2][n]
 P2 == [][IsRender /\ ~cacheOn => TotalLoads(loads', Last.n) > TotalLoads(loads, Last.n)]_vars
 P3unchanged == [][IsRender /\ cacheOn /\ autoReload /\ cache[Last.n].ver # 0 /\ ~Stale(Last.n) => loads' = loads]_vars
